@@ -184,7 +184,7 @@ func scalarTermsOfValue(v Value, into map[string]*Term) {
 func interestingHead(op string) bool {
 	op = strings.Trim(op, "|")
 	switch {
-	case op == "cs_get", op == "cs_has", op == "form_value", op == "validate", op == "hash_ok", op == "totp_ok", op == "time_parse", op == "time_parse_ok":
+	case op == "cs_get", op == "cs_has", op == "form_value", op == "validate", op == "hash_ok", op == "totp_ok", op == "time_parse", op == "time_parse_ok", op == "atoi", op == "json_unmarshal_map", op == "json_ok", strings.HasPrefix(op, "map!has!"), strings.HasPrefix(op, "map!get!"):
 		return true
 	case strings.HasPrefix(op, "b64dec!"), strings.HasPrefix(op, "b64ok!"):
 		return true
@@ -314,6 +314,7 @@ type replayPlan struct {
 	Pkg         string
 	PkgDir      string
 	External    bool
+	InRoot      bool
 	Unsupported string
 }
 
@@ -368,6 +369,13 @@ func (p *Program) buildReplay(o *Obligation) (*replayPlan, modelVals) {
 			}
 		}
 	}
+	for _, prm := range fn.Params {
+		if isUserIface(prm.Type()) || isNamed(prm.Type(), abPkg, "User") {
+			c := Const("p."+prm.Name(), SInt)
+			userRefs = append(userRefs, c)
+			terms[c.String()] = c
+		}
+	}
 	for _, u := range userRefs {
 		for f, sort := range p.UserFields {
 			sel := &Term{Op: "select", Args: []*Term{Const("uh0!"+f, SArr(SInt, sort)), u}, S: sort}
@@ -399,6 +407,14 @@ func (p *Program) buildReplay(o *Obligation) (*replayPlan, modelVals) {
 		if _, has := terms[k]; !has {
 			ts = append(ts, t)
 		}
+		if len(t.Args) == 1 {
+			if list, sep, idx, ok := splitElem(stripIte(t.Args[0])); ok {
+				ts = append(ts, App("str_split_len", SInt, list, sep))
+				if !idx.Lit {
+					ts = append(ts, idx)
+				}
+			}
+		}
 	}
 	// clock readings in order
 	var nows []*Term
@@ -412,9 +428,21 @@ func (p *Program) buildReplay(o *Obligation) (*replayPlan, modelVals) {
 	timeRealised := false
 	var mv modelVals
 	var err error
-	if ta := timeAsserts(o, nows); ta != "" {
-		if mv, err = queryModel(o, ts, ta); err == nil {
-			timeRealised = true
+	// small models are easier to realise: separated lists of at most four elements
+	sizeAsserts := ""
+	for _, t := range ts {
+		if t.Sym && strings.Trim(t.Op, "|") == "str_split_len" {
+			sizeAsserts += fmt.Sprintf("(assert (<= %s 4))\n", t)
+		}
+	}
+	ta := timeAsserts(o, nows)
+	for _, extra := range []string{ta + sizeAsserts, ta, sizeAsserts} {
+		if extra == "" {
+			continue
+		}
+		if mv, err = queryModel(o, ts, extra); err == nil {
+			timeRealised = ta != "" && strings.HasPrefix(extra, ta)
+			break
 		}
 	}
 	if mv == nil {
@@ -424,6 +452,25 @@ func (p *Program) buildReplay(o *Obligation) (*replayPlan, modelVals) {
 		return &replayPlan{Unsupported: err.Error()}, nil
 	}
 	concLog := reconcileCrypto(o, mv, ts, crypto)
+	// TOTP computed forward: where the refuted path needs totp.Validate(code,
+	// secret) to hold, the secret input gets a well-formed key and the code input
+	// is computed by the harness at run time (it depends on the clock)
+	const totpKey = "JBSWY3DPEHPK3PXPJBSWY3DPEHPK3PXP"
+	var totpCodes []map[string]interface{}
+	for _, t := range ts {
+		if !t.Sym || strings.Trim(t.Op, "|") != "totp_ok" || len(t.Args) != 2 || !mv.boolean(t) {
+			continue
+		}
+		code, secret := stripIte(t.Args[0]), stripIte(t.Args[1])
+		if !isInputLeaf(code) || !isInputLeaf(secret) {
+			continue
+		}
+		mv[secret.String()] = totpKey
+		marker := "%%%totp-code-" + strconv.Itoa(len(totpCodes)) + "%%%"
+		mv[code.String()] = marker
+		totpCodes = append(totpCodes, map[string]interface{}{"marker": marker, "secret": totpKey})
+		concLog = append(concLog, fmt.Sprintf("%s := a well-formed TOTP key; %s := the code valid for it when the harness runs", secret, code))
+	}
 	plan := &replayPlan{Script: map[string]interface{}{}}
 	if fn.Pkg == nil && fn.Parent() != nil {
 		plan.Pkg = fn.Parent().Package().Pkg.Name()
@@ -432,8 +479,7 @@ func (p *Program) buildReplay(o *Obligation) (*replayPlan, modelVals) {
 	plan.Pkg = pk.Pkg.Name()
 	plan.PkgDir = p.relPkg(pk.Pkg.Path())
 	if pk.Pkg.Path() == p.Module {
-		plan.External = true
-		plan.Pkg = pk.Pkg.Name() + "_test"
+		plan.InRoot = true // in-package test of the root package: no import, no qualifier
 	}
 
 	// sentinel errors by model value
@@ -467,6 +513,127 @@ func (p *Program) buildReplay(o *Obligation) (*replayPlan, modelVals) {
 		return strconv.FormatInt(mv.int(t), 10)
 	}
 
+	// session/cookie values that the code parses as times: relative instants
+	stimes := map[string]interface{}{}
+	for _, t := range ts {
+		if !t.Sym || strings.Trim(t.Op, "|") != "time_parse" || len(t.Args) != 2 {
+			continue
+		}
+		in := stripIte(t.Args[1])
+		if !in.Sym || strings.Trim(in.Op, "|") != "cs_get" || len(in.Args) != 2 {
+			continue
+		}
+		k, ok := in.Args[1].StrVal()
+		if !ok {
+			continue
+		}
+		okT := App("time_parse_ok", SBool, t.Args[0], t.Args[1])
+		if b, has := mv[okT.String()].(bool); has && !b {
+			continue
+		}
+		lay, _ := t.Args[0].StrVal()
+		store := "session"
+		if strings.Contains(in.Args[0].String(), "ctxval!cookie") {
+			store = "cookie"
+		}
+		stimes[store+":"+k] = map[string]interface{}{"rel": mv.int(t), "layout": lay}
+	}
+	// decimal strings the code parses (atoi(X), X an input): the input is the decimal
+	// form of the model's number; when the number is compared with a clock reading it
+	// is a Unix time and travels relative to "now"
+	timeLike := map[string]bool{}
+	var scan func(t *Term, f func(*Term))
+	scan = func(t *Term, f func(*Term)) {
+		f(t)
+		for _, a := range t.Args {
+			scan(a, f)
+		}
+	}
+	for _, h := range o.Hyps {
+		if !mentionsNow(h) {
+			continue
+		}
+		var walkAtoms func(t *Term)
+		walkAtoms = func(t *Term) {
+			if !t.Sym && (t.Op == "and" || t.Op == "not") {
+				for _, a := range t.Args {
+					walkAtoms(a)
+				}
+				return
+			}
+			if mentionsNow(t) {
+				scan(t, func(x *Term) {
+					if x.Sym && strings.Trim(x.Op, "|") == "atoi" && len(x.Args) == 1 {
+						timeLike[x.String()] = true
+					}
+				})
+			}
+		}
+		walkAtoms(h)
+	}
+	for _, t := range ts {
+		if !t.Sym || strings.Trim(t.Op, "|") != "atoi" || len(t.Args) != 1 {
+			continue
+		}
+		in := stripIte(t.Args[0])
+		n, has := mv.of(t).(int64)
+		if !has || !isInputLeaf(in) {
+			continue
+		}
+		if in.Sym && strings.Trim(in.Op, "|") == "cs_get" && len(in.Args) == 2 && timeLike[t.String()] && timeRealised {
+			if k, ok := in.Args[1].StrVal(); ok {
+				store := "session"
+				if strings.Contains(in.Args[0].String(), "ctxval!cookie") {
+					store = "cookie"
+				}
+				stimes[store+":"+k] = map[string]interface{}{"rel": n * 1000000000, "layout": "unix"}
+				continue
+			}
+		}
+		mv[in.String()] = strconv.FormatInt(n, 10)
+	}
+	plan.Script["state_times"] = stimes
+	// inputs the code decodes as a JSON object: an object holding the entries the
+	// path looked up (by literal key) and found
+	for _, t := range ts {
+		if t.Sym && strings.Trim(t.Op, "|") == "json_ok" && len(t.Args) == 1 {
+			if in := stripIte(t.Args[0]); isInputLeaf(in) {
+				if mv.boolean(t) {
+					if !json.Valid([]byte(mv.str(in))) {
+						mv[in.String()] = "{}"
+					}
+				} else {
+					mv[in.String()] = "{not json"
+				}
+			}
+		}
+	}
+	for _, t := range ts {
+		if !t.Sym || strings.Trim(t.Op, "|") != "json_unmarshal_map" || len(t.Args) != 1 {
+			continue
+		}
+		in := stripIte(t.Args[0])
+		if !isInputLeaf(in) {
+			continue
+		}
+		if ok := App("json_ok", SBool, t.Args[0]); !mv.boolean(ok) {
+			continue
+		}
+		obj := map[string]string{}
+		for _, h := range ts {
+			if !h.Sym || !strings.HasPrefix(strings.Trim(h.Op, "|"), "map!has!") || len(h.Args) != 2 || h.Args[0].String() != t.String() || !mv.boolean(h) {
+				continue
+			}
+			k, ok := h.Args[1].StrVal()
+			if !ok {
+				continue
+			}
+			g := App("map!get!String!String", SStr, h.Args[0], h.Args[1])
+			obj[k] = latin1(mv.str(g))
+		}
+		js, _ := json.Marshal(obj)
+		mv[in.String()] = string(js)
+	}
 	// request, session, cookie, context
 	req := map[string]interface{}{"method": "POST", "form": map[string]string{}}
 	form := req["form"].(map[string]string)
@@ -554,41 +721,16 @@ func (p *Program) buildReplay(o *Obligation) (*replayPlan, modelVals) {
 	plan.Script["users"] = users
 	plan.Script["time_relative"] = timeRealised
 	plan.Script["realised"] = concLog
-	// session/cookie values that the code parses as times: relative instants
-	stimes := map[string]interface{}{}
-	for _, t := range ts {
-		if !t.Sym || strings.Trim(t.Op, "|") != "time_parse" || len(t.Args) != 2 {
-			continue
-		}
-		in := stripIte(t.Args[1])
-		if !in.Sym || strings.Trim(in.Op, "|") != "cs_get" || len(in.Args) != 2 {
-			continue
-		}
-		k, ok := in.Args[1].StrVal()
-		if !ok {
-			continue
-		}
-		okT := App("time_parse_ok", SBool, t.Args[0], t.Args[1])
-		if b, has := mv[okT.String()].(bool); has && !b {
-			continue
-		}
-		lay, _ := t.Args[0].StrVal()
-		store := "session"
-		if strings.Contains(in.Args[0].String(), "ctxval!cookie") {
-			store = "cookie"
-		}
-		stimes[store+":"+k] = map[string]interface{}{"rel": mv.int(t), "layout": lay}
-	}
-	plan.Script["state_times"] = stimes
+	plan.Script["totp_codes"] = totpCodes
 	// calls in order
 	valuesOf := func(ref *Term) map[string]interface{} {
 		m := map[string]interface{}{}
 		for _, t := range ts {
 			op := strings.Trim(t.Op, "|")
-			if t.Sym && strings.HasPrefix(op, "val!Get") && len(t.Args) == 1 && t.Args[0].String() == ref.String() {
+			if t.Sym && strings.HasPrefix(op, "val!Get") && len(t.Args) == 1 && assertedRef(t.Args[0]).String() == ref.String() {
 				m[strings.TrimPrefix(op, "val!Get")] = mv.of(t)
 			}
-			if t.Sym && op == "validate" && len(t.Args) == 1 && t.Args[0].String() == ref.String() && mv.int(t) != 0 {
+			if t.Sym && op == "validate" && len(t.Args) == 1 && assertedRef(t.Args[0]).String() == ref.String() && mv.int(t) != 0 {
 				m["validate_errors"] = 1
 			}
 		}
@@ -623,6 +765,8 @@ func (p *Program) buildReplay(o *Obligation) (*replayPlan, modelVals) {
 		case e.Kind == "Fire":
 			h, _ := e.Res[0].(*Term)
 			calls = append(calls, map[string]interface{}{"kind": e.Kind, "res": map[string]interface{}{"handled": mv.boolean(h), "err": errName(e.Res[1])}})
+		case e.Kind == "CallFuncValue" && len(e.Res) > 0:
+			calls = append(calls, map[string]interface{}{"kind": e.Kind, "res": map[string]interface{}{"err": errName(e.Res[len(e.Res)-1])}})
 		case e.Kind == "Respond" || e.Kind == "Redirect" || e.Kind == "SMS.Send" || e.Kind == "Mail.Send":
 			calls = append(calls, map[string]interface{}{"kind": e.Kind, "res": map[string]interface{}{"err": errName(e.Res[0])}})
 		}
@@ -655,17 +799,20 @@ func (p *Program) buildReplay(o *Obligation) (*replayPlan, modelVals) {
 				continue
 			}
 			q := "authboss."
+			if pk.Pkg.Path() == p.Module {
+				q = ""
+			}
 			cfg = append(cfg, fmt.Sprintf("\tab.Config.%s = %s(%s)", path, strings.ReplaceAll(types.TypeString(ft, func(pk *types.Package) string {
 				if pk.Path() == p.Module {
 					return strings.TrimSuffix(q, ".")
 				}
 				return pk.Name()
-			}), "authboss.authboss", "authboss"), goLit(mv.of(t))))
+			}), "authboss.authboss", "authboss"), goLit(orZeroT(mv.of(t), ft))))
 		}
 	}
 	sort.Strings(cfg)
 	plan.ConfigCode = strings.Join(cfg, "\n")
-	plan.CallCode, plan.Unsupported = p.replayCall(fn, mv)
+	plan.CallCode, plan.Unsupported = p.replayCall(fn, mv, plan.InRoot)
 	return plan, mv
 }
 
@@ -699,14 +846,34 @@ func fieldTypeByPath(t types.Type, path []string) types.Type {
 }
 
 // replayCall emits the Go code that builds the receiver and calls the function.
-func (p *Program) replayCall(fn *ssa.Function, mv modelVals) (code string, unsupported string) {
+func (p *Program) replayCall(fn *ssa.Function, mv modelVals, inRoot bool) (code string, unsupported string) {
 	key := p.funcKey(fn)
 	name := key[strings.IndexByte(key, ':')+1:]
-	paramVal := func(prm *ssa.Parameter) (string, bool) {
-		t := prm.Type()
+	testPkg := fn.Package().Pkg
+	qual := func(pk *types.Package) string {
+		if pk == testPkg {
+			return ""
+		}
+		if pk.Path() == p.Module {
+			return "authboss"
+		}
+		return pk.Name()
+	}
+	tstr := func(t types.Type) string { return types.TypeString(t, qual) }
+	basicLit := func(t types.Type, v interface{}) (string, bool) {
+		b, ok := t.Underlying().(*types.Basic)
+		if !ok || b.Info()&(types.IsString|types.IsInteger|types.IsBoolean) == 0 {
+			return "", false
+		}
+		return fmt.Sprintf("%s(%s)", tstr(t), goLit(orZero(v, b))), true
+	}
+	var paramVal func(pname string, t types.Type) (string, bool)
+	paramVal = func(pname string, t types.Type) (string, bool) {
 		switch {
 		case isNamed(t, "net/http", "ResponseWriter"):
 			return "w", true
+		case isNamed(t, "net/http", "Handler"):
+			return "vrNext{st}", true
 		case isNamed(t, "net/http", "Request"):
 			if _, ok := t.(*types.Pointer); ok {
 				return "r", true
@@ -721,10 +888,28 @@ func (p *Program) replayCall(fn *ssa.Function, mv modelVals) (code string, unsup
 				return "&r", true
 			}
 		}
-		if b, ok := t.Underlying().(*types.Basic); ok && b.Info()&(types.IsString|types.IsInteger|types.IsBoolean) != 0 {
-			v := mv["p."+prm.Name()]
-			tn := types.TypeString(t, func(pk *types.Package) string { return pk.Name() })
-			return fmt.Sprintf("%s(%s)", tn, goLit(orZero(v, b))), true
+		if isUserIface(t) || isNamed(t, abPkg, "User") {
+			id, _ := mv["p."+pname].(int64)
+			return fmt.Sprintf("func() %s { if u := st.user(%q); u != nil { return u }; return nil }()", tstr(t), strconv.FormatInt(id, 10)), true
+		}
+		if s, ok := basicLit(t, mv["p."+pname]); ok {
+			return s, true
+		}
+		if isByteSlice(t) {
+			s, _ := mv["p."+pname].(string)
+			return fmt.Sprintf("[]byte(vrBytes(%s))", strconv.Quote(latin1(s))), true
+		}
+		if n, ok := t.(*types.Named); ok && valueLike(n) {
+			if stt, ok := n.Underlying().(*types.Struct); ok {
+				var fs []string
+				for i := 0; i < stt.NumFields(); i++ {
+					f := stt.Field(i)
+					if s, ok := basicLit(f.Type(), mv["p."+pname+"."+f.Name()]); ok {
+						fs = append(fs, f.Name()+": "+s)
+					}
+				}
+				return tstr(t) + "{" + strings.Join(fs, ", ") + "}", true
+			}
 		}
 		return "", false
 	}
@@ -733,6 +918,9 @@ func (p *Program) replayCall(fn *ssa.Function, mv modelVals) (code string, unsup
 		if pp, ok := t.(*types.Pointer); ok {
 			ptr = "&"
 			t = pp.Elem()
+		}
+		if isNamed(t, abPkg, "Authboss") && ptr == "&" {
+			return "ab", true
 		}
 		n, ok := t.(*types.Named)
 		if !ok {
@@ -751,8 +939,12 @@ func (p *Program) replayCall(fn *ssa.Function, mv modelVals) (code string, unsup
 				switch {
 				case isNamed(ft, abPkg, "Authboss"):
 					fs = append(fs, f.Name()+": ab")
+				case isNamed(ft, "net/http", "Handler"):
+					fs = append(fs, f.Name()+": vrNext{st}")
 				case f.Name() == "Sender":
 					fs = append(fs, "Sender: vrSender{st}")
+				case isNamed(ft, abPkg, "Renderer"):
+					fs = append(fs, f.Name()+": vrRenderer{st}")
 				default:
 					if pp, ok := ft.(*types.Pointer); ok {
 						if n2, ok := pp.Elem().(*types.Named); ok {
@@ -766,16 +958,16 @@ func (p *Program) replayCall(fn *ssa.Function, mv modelVals) (code string, unsup
 							}
 						}
 					}
-					if b, ok := ft.Underlying().(*types.Basic); ok && b.Info()&types.IsString != 0 {
+					if b, ok := ft.Underlying().(*types.Basic); ok && b.Info()&(types.IsString|types.IsInteger|types.IsBoolean) != 0 {
 						// value from the model: f!<pkg>.<Type>.<Field>(p.<recv>) or p.<recv>.<Field>
 						var val interface{}
 						for k, v := range mv {
-							if strings.Contains(k, "."+n.Obj().Name()+"."+f.Name()+" ") || strings.HasSuffix(k, base+"."+f.Name()) {
+							if strings.Contains(k, "."+n.Obj().Name()+"."+f.Name()+" ") || strings.HasSuffix(k, path+"."+f.Name()) {
 								val = v
 							}
 						}
-						s, _ := val.(string)
-						fs = append(fs, f.Name()+": "+strconv.Quote(s))
+						s, _ := basicLit(ft, val)
+						fs = append(fs, f.Name()+": "+s)
 					}
 				}
 			}
@@ -783,38 +975,92 @@ func (p *Program) replayCall(fn *ssa.Function, mv modelVals) (code string, unsup
 		}
 		return build(n, stt, ptr, base)
 	}
-	var args []string
-	params := fn.Params
+	wrap := func(call string, sig *types.Signature) string {
+		if sig.Results().Len() == 0 {
+			return call
+		}
+		return "result = vrResults(" + call + ")"
+	}
+	argsOf := func(f *ssa.Function, skipRecv bool) ([]string, string) {
+		var args []string
+		ps := f.Params
+		if skipRecv {
+			ps = ps[1:]
+		}
+		for _, prm := range ps {
+			a, ok := paramVal(prm.Name(), prm.Type())
+			if !ok {
+				return nil, "parameter " + prm.Name() + " of " + f.Name() + " cannot be constructed"
+			}
+			args = append(args, a)
+		}
+		return args, ""
+	}
 	call := ""
 	switch {
-	case !strings.Contains(name, "#") && fn.Signature.Recv() != nil:
-		lit, ok := recvLit(fn.Signature.Recv().Type(), "p."+params[0].Name())
+	case fn.Parent() == nil && fn.Signature.Recv() != nil:
+		lit, ok := recvLit(fn.Signature.Recv().Type(), "p."+fn.Params[0].Name())
 		if !ok {
 			return "", "receiver of " + name + " cannot be constructed"
 		}
-		for _, prm := range params[1:] {
-			a, ok := paramVal(prm)
-			if !ok {
-				return "", "parameter " + prm.Name() + " of " + name + " cannot be constructed"
-			}
-			args = append(args, a)
+		args, why := argsOf(fn, true)
+		if why != "" {
+			return "", why
 		}
-		call = fmt.Sprintf("recv := %s\n\t\tresult = vrResults(recv.%s(%s))", lit, fn.Name(), strings.Join(args, ", "))
-	case !strings.Contains(name, "#"):
-		for _, prm := range params {
-			a, ok := paramVal(prm)
-			if !ok {
-				return "", "parameter " + prm.Name() + " of " + name + " cannot be constructed"
-			}
-			args = append(args, a)
+		call = "recv := " + lit + "\n\t\t" + wrap(fmt.Sprintf("recv.%s(%s)", fn.Name(), strings.Join(args, ", ")), fn.Signature)
+	case fn.Parent() == nil:
+		args, why := argsOf(fn, false)
+		if why != "" {
+			return "", why
 		}
-		call = fmt.Sprintf("result = vrResults(%s(%s))", fn.Name(), strings.Join(args, ", "))
-	case strings.HasSuffix(name, "Middleware#1#1") && fn.Parent() != nil && fn.Parent().Parent() != nil && len(fn.Parent().Parent().Params) == 1:
-		call = fmt.Sprintf("Middleware(ab)(vrNext{st}).ServeHTTP(w, r)")
+		call = wrap(fmt.Sprintf("%s(%s)", fn.Name(), strings.Join(args, ", ")), fn.Signature)
 	default:
-		return "", "closure " + name + " has no replay adapter"
+		// a handler closure: call the function that builds it, with the values the
+		// model gives to the variables it captured, and serve the request through it
+		root, depth := fn, 0
+		for root.Parent() != nil {
+			root = root.Parent()
+			depth++
+		}
+		if !isHandlerFuncSig(fn.Signature) || depth > 2 {
+			return "", "closure " + name + " has no replay adapter"
+		}
+		prefix := ""
+		skip := false
+		if root.Signature.Recv() != nil {
+			lit, ok := recvLit(root.Signature.Recv().Type(), "p."+root.Params[0].Name())
+			if !ok {
+				return "", "receiver of " + root.Name() + " cannot be constructed"
+			}
+			prefix = "recv := " + lit + "\n\t\t"
+			skip = true
+		}
+		args, why := argsOf(root, skip)
+		if why != "" {
+			return "", why
+		}
+		h := fmt.Sprintf("%s(%s)", root.Name(), strings.Join(args, ", "))
+		if skip {
+			h = "recv." + h
+		}
+		if depth == 2 {
+			h += "(vrNext{st})"
+		}
+		call = prefix + h + ".ServeHTTP(w, r)"
 	}
 	return "\t\t" + call, ""
+}
+
+// isHandlerFuncSig: func(http.ResponseWriter, *http.Request).
+func isHandlerFuncSig(sig *types.Signature) bool {
+	return sig.Params().Len() == 2 && sig.Results().Len() == 0 && isNamed(sig.Params().At(0).Type(), "net/http", "ResponseWriter") && isNamed(sig.Params().At(1).Type(), "net/http", "Request")
+}
+
+func orZeroT(v interface{}, t types.Type) interface{} {
+	if b, ok := t.Underlying().(*types.Basic); ok {
+		return orZero(v, b)
+	}
+	return v
 }
 
 func orZero(v interface{}, b *types.Basic) interface{} {
@@ -836,12 +1082,23 @@ func (p *Program) harnessSource(plan *replayPlan) string {
 	src := replayHarness
 	abq := "authboss."
 	abimp := `authboss "` + p.Module + `"`
+	if plan.InRoot {
+		abq, abimp = "", ""
+	}
 	src = strings.ReplaceAll(src, "%PKG%", plan.Pkg)
 	src = strings.ReplaceAll(src, "%ABIMPORT%", abimp)
 	src = strings.ReplaceAll(src, "%ABQ%", abq)
 	src = strings.ReplaceAll(src, "%USERMETHODS%", p.userMethodsSource())
 	src = strings.ReplaceAll(src, "%VALUEMETHODS%", p.valueMethodsSource())
 	src = strings.ReplaceAll(src, "%CONFIG%", plan.ConfigCode)
+	extraImports, extraSetup := "", ""
+	if plan.PkgDir == "oauth2" {
+		// the provider table and the token exchange are part of the environment
+		extraImports = "\t\"path/filepath\"\n\tgoauth2 \"golang.org/x/oauth2\"\n"
+		extraSetup = oauth2Setup
+	}
+	src = strings.ReplaceAll(src, "%EXTRAIMPORTS%", extraImports)
+	src = strings.ReplaceAll(src, "%EXTRASETUP%", extraSetup)
 	src = strings.ReplaceAll(src, "%CALL%", plan.CallCode)
 	js, _ := json.Marshal(latin1Deep(plan.Script))
 	src = strings.ReplaceAll(src, "%SCRIPT%", "`"+strings.ReplaceAll(string(js), "`", "'")+"`")
@@ -855,7 +1112,11 @@ func vrResults(rs ...interface{}) []interface{} {
 		case error:
 			out = append(out, vrErrName(x))
 		default:
-			out = append(out, x)
+			if _, err := json.Marshal(x); err != nil {
+				out = append(out, fmt.Sprintf("%T", x))
+			} else {
+				out = append(out, x)
+			}
 		}
 	}
 	return out
@@ -983,6 +1244,9 @@ var replayRelevant = map[string]bool{"Body.Read": true, "Hash.Compare": true, "H
 func kindProjection(kinds []string) []string {
 	var out []string
 	for _, k := range kinds {
+		if k == "HTTPRedirect" {
+			k = "WriteHeader" // http.Redirect sets Location and writes the header
+		}
 		if replayRelevant[k] || strings.HasPrefix(k, "Store.") {
 			if k == "Store.New" {
 				continue
@@ -996,7 +1260,7 @@ func kindProjection(kinds []string) []string {
 // tryReplay builds and runs the replay of a refuted obligation on the real code.
 func tryReplay(o *Obligation, p *Program, repo string) map[string]interface{} {
 	res := map[string]interface{}{"confirmed": false}
-	plan, _ := p.buildReplay(o)
+	plan, mv := p.buildReplay(o)
 	if plan.Unsupported != "" {
 		res["not_replayed"] = plan.Unsupported
 		return res
@@ -1060,6 +1324,15 @@ func tryReplay(o *Obligation, p *Program, repo string) map[string]interface{} {
 	res["observed_effect_kinds"] = gp
 	same := strings.Join(gp, "|") == strings.Join(wp, "|")
 	res["same_path_on_real_code"] = same
+	// results: error results must agree in nil-ness and boolean results in value
+	// with what the model says the refuted path returns; a path without any
+	// relevant effect is only confirmed through its results
+	agree, compared := compareResults(o, mv, got.Result)
+	res["results_compared"] = compared
+	res["results_agree"] = agree
+	if !agree || (len(wp) == 0 && compared == 0) {
+		same = false
+	}
 	// The counterexample is confirmed when the real function, driven by the
 	// model's inputs and environment answers, produces the effect sequence of
 	// the refuted path (on which the clause is false under the model).
@@ -1105,10 +1378,94 @@ func cmdReplay(args []string) {
 	ov, _ := json.Marshal(map[string]interface{}{"Replace": map[string]string{filepath.Join(repo, pkgDir, "zz_verif_replay_test.go"): testFile}})
 	ovFile := filepath.Join(dir, "overlay.json")
 	os.WriteFile(ovFile, ov, 0o644)
-	cmd := exec.Command("go", "test", "-tags", "verif", "-overlay", ovFile, "-vet=off", "-count=1", "-v", "-timeout", "60s", "-run", "TestVerifReplay$", "./"+pkgDir)
+	run, _ := rp["run"].(string)
+	if run == "" {
+		run = "TestVerifReplay$"
+	}
+	cmd := exec.Command("go", "test", "-tags", "verif", "-overlay", ovFile, "-vet=off", "-count=1", "-v", "-timeout", "300s", "-run", run, "./"+pkgDir)
 	cmd.Dir = repo
 	cmd.Env = append(os.Environ(), "GOFLAGS=-mod=mod", "GOPROXY=off", "GOSUMDB=off", "GOTOOLCHAIN=local")
 	out, _ := cmd.CombinedOutput()
 	fmt.Println(string(out))
 	fmt.Println("expected effect kinds on the refuted path:", rp["expected_effect_kinds"])
 }
+
+// compareResults compares the concrete results with the model's values of the
+// symbolic results (error nil-ness, booleans, integers).
+func compareResults(o *Obligation, mv modelVals, got []interface{}) (agree bool, compared int) {
+	agree = true
+	if o.Panicked || o.RetVal == nil || o.Fn == nil {
+		return
+	}
+	var vals []Value
+	if tv, ok := o.RetVal.(*TupleV); ok {
+		vals = tv.V
+	} else {
+		vals = []Value{o.RetVal}
+	}
+	rs := o.Fn.Signature.Results()
+	for i, v := range vals {
+		if i >= len(got) || i >= rs.Len() {
+			break
+		}
+		t, ok := v.(*Term)
+		if !ok {
+			continue
+		}
+		rt := rs.At(i).Type()
+		switch {
+		case isErrorType(rt):
+			m, has := mv.of(t).(int64)
+			if !has {
+				continue
+			}
+			compared++
+			s, _ := got[i].(string)
+			if (m == 0) != (s == "nil") {
+				agree = false
+			}
+		case t.S == SBool:
+			m, has := mv.of(t).(bool)
+			if !has {
+				continue
+			}
+			compared++
+			if b, ok := got[i].(bool); !ok || b != m {
+				agree = false
+			}
+		}
+	}
+	return
+}
+
+func isErrorType(t types.Type) bool {
+	n, ok := t.(*types.Named)
+	return ok && n.Obj().Pkg() == nil && n.Obj().Name() == "error"
+}
+
+// assertedRef strips the result shape of a type assertion, ite(is!T(x), x, nil).
+func assertedRef(t *Term) *Term {
+	for !t.Sym && t.Op == "ite" && len(t.Args) == 3 {
+		t = t.Args[1]
+	}
+	return t
+}
+
+const oauth2Setup = `	vrProv := strings.ToLower(filepath.Base(st.script.Request.Path))
+	ab.Config.Modules.OAuth2Providers = map[string]authboss.OAuth2Provider{vrProv: {
+		OAuth2Config: &goauth2.Config{ClientID: "id", Endpoint: goauth2.Endpoint{AuthURL: "https://provider.invalid/auth", TokenURL: "https://provider.invalid/token"}},
+		FindUserDetails: func(ctx context.Context, cfg goauth2.Config, tok *goauth2.Token) (map[string]string, error) {
+			err := st.err(st.pop("CallFuncValue")["err"])
+			st.emit("CallFuncValue", []interface{}{"FindUserDetails"}, []interface{}{vrErrName(err)})
+			return map[string]string{"uid": "u"}, err
+		},
+	}}
+	exchanger = func(cfg *goauth2.Config, ctx context.Context, code string, opts ...goauth2.AuthCodeOption) (*goauth2.Token, error) {
+		err := st.err(st.pop("CallFuncValue")["err"])
+		st.emit("CallFuncValue", []interface{}{"Exchange", code}, []interface{}{vrErrName(err)})
+		if err != nil {
+			return nil, err
+		}
+		return &goauth2.Token{AccessToken: "token"}, nil
+	}
+`
